@@ -14,7 +14,7 @@ RULE = ("expand/combine: every list of <=3 sample counts in 1..M x every maximum
         "within the deviation bound. non-trivial = input actually needs splitting / a remainder / a random correction; distinct = canonical input")
 ASSUMPTIONS = ["np.random.choice is the only randomness used (other entry points are trapped)", "the scripted choice enforces numpy's own argument checks (p >= 0, sum p = 1 within 1e-8)"]
 BOUNDS = {"quick": {"counts": "1..12", "max": "1..13", "weights": "0..3", "N": "1..7", "deviations": 2},
-          "thorough": {"counts": "1..24", "max": "1..25", "weights": "0..4", "N": "1..9", "deviations": "all answers"}}
+          "thorough": {"counts": "1..24", "max": "1..25", "weights": "0..5", "N": "1..12 (two-level family on 3 bits: 1..16, <=3 deviations)", "deviations": "all answers on <=2 bits"}}
 
 
 def expand_case(case):
@@ -261,15 +261,15 @@ def run(run):
     secs.append(Section("pipeline", P, pipeline_case, desc="expand -> split_into_batches -> reference runner -> combine"))
     Wt = [list(w) for k in range(1, 5) for w in itertools.product((1, 2, 3, 5, 0.5), repeat=k)]
     secs.append(Section("scale", [{"weights": w} for w in Wt], scale_case, desc="scale_and_discretize on every weight list x totals 0..16"))
-    D = distributions(4 if thorough else 3)
-    Ns = range(1, 10) if thorough else range(1, 8)
+    D = distributions(5 if thorough else 3)
+    Ns = range(1, 13) if thorough else range(1, 8)
     bound = None if thorough else 2
     cases = [{"weights": d, "N": n, "bound": bound, "keys": "str"} for d in D for n in Ns]
     cases += [{"weights": d, "N": n, "bound": bound, "keys": "tuple"} for d in D[::7] for n in Ns]
     secs.append(Section("represent", cases, represent_case, horizon=600, desc="get_measurements_representing_distribution under every scripted RNG answer (bound=%s)" % bound))
     fam = two_level_family(thorough)
-    wb = 2 if thorough else 1
-    cases = [{"weights": d, "N": n, "bound": wb, "keys": "str"} for d in fam for n in (range(1, 13) if thorough else (2, 3, 4, 5, 7, 9))]
+    wb = 3 if thorough else 1
+    cases = [{"weights": d, "N": n, "bound": wb, "keys": "str"} for d in fam for n in (range(1, 17) if thorough else (2, 3, 4, 5, 7, 9))]
     secs.append(Section("represent_wide", cases, represent_case, horizon=900, chunk=8,
                         desc="two-level distributions on 3 bits (rare outcomes first), every execution with <= %d non-default RNG answers" % wb))
     secs.append(Section("represent_real_rng", [{"weights": d, "N": n} for d in D[::5] for n in Ns], seam_validation_case,
